@@ -353,8 +353,6 @@ mut("c20_order_dependent_side_effect", "C20", [
 
 import sys as _sys
 
-LOADED_AFTER_INSTRUMENT = "chartparse.instrument" in _sys.modules and hasattr(
-    _sys.modules["chartparse.instrument"], "TrackEvent"
-)
+LOADED_BEFORE_TRACK = "chartparse.track" not in _sys.modules
 '''),
 ], "a module-level value that depends on which module was imported first")
